@@ -26,6 +26,35 @@ type c13Case struct {
 	Chunk  int      `json:"bytes_per_read,omitempty"`                    // patterned schedule: at most this many bytes per Read
 	Big    int      `json:"big_document_bytes,omitempty"`                // Docs[0] is replaced by a generated document of about this size
 	UseNum bool     `json:"json_use_number,omitempty"`                   // JsonUseNumber is on (the direct decodes run under the same setting)
+	Latin1 bool     `json:"latin1_charset_reader,omitempty"`             // XmlCharsetReader is set to a Latin-1 reader (documents declare encoding="ISO-8859-1")
+}
+
+// latin1Reader is a CharsetReader for ISO-8859-1: it asks its source for as many bytes as fit into the
+// caller's buffer after conversion (as golang.org/x/text's transform.Reader does).
+type latin1Reader struct {
+	src io.Reader
+	tmp []byte
+}
+
+func (l *latin1Reader) Read(p []byte) (int, error) {
+	if len(p) < 2 {
+		return 0, io.ErrShortBuffer
+	}
+	if cap(l.tmp) < len(p)/2 {
+		l.tmp = make([]byte, len(p)/2)
+	}
+	n, err := l.src.Read(l.tmp[:len(p)/2])
+	o := 0
+	for _, b := range l.tmp[:n] {
+		if b < 0x80 {
+			p[o] = b
+			o++
+		} else {
+			p[o], p[o+1] = 0xC0|b>>6, 0x80|b&0x3F
+			o += 2
+		}
+	}
+	return o, err
 }
 
 func init() {
@@ -160,6 +189,10 @@ func c13Exec(c *Ctx, k c13Case, choices []int) {
 	if k.UseNum {
 		mxj.JsonUseNumber = true
 		defer func() { mxj.JsonUseNumber = false }()
+	}
+	if k.Latin1 {
+		mxj.XmlCharsetReader = func(cs string, in io.Reader) (io.Reader, error) { return &latin1Reader{src: in}, nil }
+		defer func() { mxj.XmlCharsetReader = nil }()
 	}
 	// document boundaries in the stream
 	var starts, ends []int
@@ -406,7 +439,7 @@ func c13Exec(c *Ctx, k c13Case, choices []int) {
 func c13Run(c *Ctx) {
 	mustBeDefault(c)
 	c.S.Rule = "cases = (stream, function, reader kind, handler stop point); streams are concatenations of 1..3 documents (XML: <a/>, <a>x</a>, <a b=\"1\"><c/>t</a>, a document with XML declaration, a document with 2-, 3- and 4-byte characters in names and values (every delivery split falls inside them); JSON: {\"a\":1}, a string value with braces and quotes, a string ending in an escaped backslash, a string with an escaped backslash followed by an escaped quote, nested object/array with a bracket in a string, multi-byte characters in key and value) with separators {none, space, newline+tab} and optional trailing blanks; functions NewMapXmlReader[Raw], NewMapXmlSeqReader[Raw], NewMapJsonReader[Raw], HandleXmlReader[Raw], HandleJsonReader[Raw] (map handler returning false at every k), x2j-wrapper ToMap / XmlMsgsFromReader; reader kinds plain io.Reader and io.Reader+io.ByteReader. Schedules (E-choice): every Read call is a choice point - default full delivery, short read, (0,nil) (at most 2 in a row), final data together with io.EOF - explored exhaustively for deviation bound 0,1,2 (3 in thorough on single documents); plus patterned schedules with 50 and 97 empty reads before every delivery (bound 1 over the remaining choices); plus large first documents (about 4090, 4096, 4100 and 9000 bytes: around the 4096-byte buffers of bufio and the tokenizer) followed by a small one, delivered whole, 1 byte, 7 bytes and 4096 bytes per Read (bound 0); the JSON functions also under JsonUseNumber (bound 1). Oracle: results = direct decodes in order then io.EOF, no over-read into the next document, Raw values as documented, handlers once per document in order and stop on false, termination within the reader horizon. non-trivial = executions with at least one deviation (counted in counters.deviating_schedules)."
-	c.S.Assumptions = []string{"JSON raw = the document with JSON-insignificant white space removed (the implementation strips it by design)", "the empty JSON object {} is not in the alphabet (handlers treat an empty Map as 'nothing arrived yet' by design)", "an io.ByteReader cannot legally deliver a byte together with an error, so that kind has only the default schedule"}
+	c.S.Assumptions = []string{"the empty JSON object {} is not in the alphabet (handlers treat an empty Map as 'nothing arrived yet' by design)", "an io.ByteReader cannot legally deliver a byte together with an error, so that kind has only the default schedule"}
 	xmlDocs := []string{`<a/>`, `<a>x</a>`, `<a b="1"><c/>t</a>`, `<?xml version="1.0"?><a>y</a>`, "<\u00e9 k=\"\u20ac\">\U0001F600</\u00e9>"}
 	jsonDocs := []string{`{"a":1}`, `{"a":"}{\""}`, `{"a":"x\\"}`, `{"a":{"b":[1,{"c":"]"}]}}`, `{"e":"\\\"{"}`, `{"p":"C:\\dir\\ "}`, "{\"\u00e9\":\"\u20ac\U0001F600\"}", "{\"p\":\"C:\\\\\u20ac\"}", `{ "a" : [ 1 , 2 ] }`, "{\n\t\"a\": \"x y\"\r\n}"}
 	xmlFns := []string{"NewMapXmlReader", "NewMapXmlReaderRaw", "NewMapXmlSeqReader", "NewMapXmlSeqReaderRaw", "HandleXmlReader", "HandleXmlReaderRaw", "x2j-wrapper.ToMap", "x2j-wrapper.XmlMsgsFromReader"}
@@ -456,6 +489,25 @@ func c13Run(c *Ctx) {
 	}
 	build(xmlDocs, xmlFns)
 	build(jsonDocs, jsonFns)
+	// documents in a declared 8-bit encoding, read through XmlCharsetReader: the tokenizer then reads through the
+	// wrapper's Read method, and a charset reader asks for whole buffers
+	{
+		n0 := len(cases)
+		build([]string{"<?xml version=\"1.0\" encoding=\"ISO-8859-1\"?><a>caf\xe9</a>", "<?xml version=\"1.0\" encoding=\"ISO-8859-1\"?><b k=\"\xe9\">x</b>"},
+			[]string{"NewMapXmlReader", "NewMapXmlReaderRaw", "HandleXmlReader", "HandleXmlReaderRaw", "x2j-wrapper.ToMap", "x2j-wrapper.XmlMsgsFromReader"})
+		kept := cases[:n0]
+		for _, k := range cases[n0:] {
+			// a caller's own io.ByteReader is handed to xml.NewDecoder as it is (encoding/xml: "If r does not implement
+			// io.ByteReader, NewDecoder will do its own buffering") and from there to the CharsetReader, which mxj
+			// cannot keep from reading ahead; the Raw forms wrap every reader and are checked for both kinds
+			if k.ByteRd && len(k.Docs) > 1 && !strings.Contains(k.Fn, "Raw") {
+				continue
+			}
+			k.Latin1 = true
+			kept = append(kept, k)
+		}
+		cases = kept
+	}
 	// the JSON reader functions under JsonUseNumber (numbers keep their text, like the direct decode)
 	for _, k := range append([]c13Case(nil), cases...) {
 		if !strings.Contains(k.Fn, "Json") || k.Stalls > 0 || k.Big > 0 || k.ByteRd || k.Trail != "" || !strings.Contains(strings.Join(k.Docs, ""), "1") {
